@@ -192,11 +192,10 @@ func (c JSONArrayCodec) Read(data []byte, ptr unsafe.Pointer, wt plenccore.WireT
 	}
 	offset := n
 
-	a := *(*[]any)(ptr)
-	if a == nil {
-		a = make([]any, count)
-		*(*[]any)(ptr) = a
-	}
+	// The array holds exactly the encoded entries. A nil entry writes nothing,
+	// so always start from a fresh array rather than whatever the target held
+	a := make([]any, count)
+	*(*[]any)(ptr) = a
 
 	for i := range a {
 		l, n := plenccore.ReadVarUint(data[offset:])
